@@ -35,6 +35,7 @@ import (
 	sifapp "github.com/Sifchain/sifnode/app"
 	admintypes "github.com/Sifchain/sifnode/x/admin/types"
 	"github.com/Sifchain/sifnode/x/ethbridge"
+	"github.com/Sifchain/sifnode/x/oracle"
 	ethtypes "github.com/Sifchain/sifnode/x/ethbridge/types"
 	oracletypes "github.com/Sifchain/sifnode/x/oracle/types"
 	"github.com/cosmos/cosmos-sdk/crypto/keys/ed25519"
@@ -399,12 +400,80 @@ func deltaMap(before, after map[string]*big.Int) string {
 	return dumpMap(d)
 }
 
+// dumpProphecies lists every stored prophecy; a panic of the keeper while reading them is an observation ("PANIC")
+func (w *bworld) dumpProphecies() string {
+	return protectStr(func() string {
+		var ps []string
+		for _, p := range w.app.OracleKeeper.GetProphecies(w.ctx) {
+			ps = append(ps, w.dumpProphecy(p))
+		}
+		sort.Strings(ps)
+		return listOrDash2(ps)
+	}, "PANIC")
+}
+
+func protectStr(f func() string, onPanic string) (res string) {
+	defer func() {
+		if r := recover(); r != nil {
+			res = onPanic
+		}
+	}()
+	return f()
+}
+
+// dumpBridgeRest: the oracle / ethbridge state other than the prophecies, one token
+func (w *bworld) dumpBridgeRest() string {
+	return protectStr(func() string {
+		k := w.app.EthbridgeKeeper
+		recv := "-"
+		if k.IsCethReceiverAccountSet(w.ctx) {
+			recv = w.acctAlias(k.GetCethReceiverAccount(w.ctx))
+		}
+		bl := append([]string{}, k.GetBlacklist(w.ctx)...)
+		sort.Strings(bl)
+		pt := append([]string{}, k.GetPeggyToken(w.ctx).Tokens...)
+		sort.Strings(pt)
+		adm := "-"
+		if a := w.app.OracleKeeper.GetAdminAccount(w.ctx); len(a) > 0 {
+			adm = w.acctAlias(a)
+		}
+		return fmt.Sprintf("wl:%s;admin:%s;peggy:%s;paused:%s;recv:%s;bl:%s", w.dumpWl(), adm, listOrDash(pt), b2s(k.IsPaused(w.ctx)), recv, listOrDash(bl))
+	}, "PANIC")
+}
+
+// restart: the chain is restarted from its exported genesis — the real oracle and ethbridge ExportGenesis, the app's
+// JSON codec, the real InitGenesis on emptied oracle / ethbridge stores; bank, auth, staking and admin state are
+// carried over.  Written only if nothing panicked.
+func (w *bworld) restart() string {
+	return protectStr(func() string {
+		cctx, write := w.ctx.CacheContext()
+		cdc := w.app.AppCodec()
+		ob := cdc.MustMarshalJSON(oracle.ExportGenesis(cctx, w.app.OracleKeeper))
+		eb := cdc.MustMarshalJSON(ethbridge.ExportGenesis(cctx, w.app.EthbridgeKeeper))
+		var og oracletypes.GenesisState
+		var eg ethtypes.GenesisState
+		cdc.MustUnmarshalJSON(ob, &og)
+		cdc.MustUnmarshalJSON(eb, &eg)
+		for _, name := range []string{oracletypes.StoreKey, ethtypes.StoreKey} {
+			st := cctx.KVStore(w.app.GetKey(name))
+			var keys [][]byte
+			it := st.Iterator(nil, nil)
+			for ; it.Valid(); it.Next() {
+				keys = append(keys, append([]byte{}, it.Key()...))
+			}
+			it.Close()
+			for _, k := range keys {
+				st.Delete(k)
+			}
+		}
+		oracle.InitGenesis(cctx, w.app.OracleKeeper, og)
+		ethbridge.InitGenesis(cctx, w.app.EthbridgeKeeper, eg)
+		write()
+		return "ok"
+	}, "panic")
+}
+
 func (w *bworld) dumpState() string {
-	var ps []string
-	for _, p := range w.app.OracleKeeper.GetProphecies(w.ctx) {
-		ps = append(ps, w.dumpProphecy(p))
-	}
-	sort.Strings(ps)
 	bal, sup := w.bankView()
 	k := w.app.EthbridgeKeeper
 	recv := "-"
@@ -423,7 +492,7 @@ func (w *bworld) dumpState() string {
 	pt := append([]string{}, k.GetPeggyToken(w.ctx).Tokens...)
 	sort.Strings(pt)
 	return fmt.Sprintf("wl=%s proph=%s peggy=%s paused=%s recv=%s bl=%s bal=%s sup=%s",
-		w.dumpWl(), listOrDash2(ps), listOrDash(pt), b2s(k.IsPaused(w.ctx)), recv, listOrDash(bl), dumpMap(bal), dumpMap(sup))
+		w.dumpWl(), w.dumpProphecies(), listOrDash(pt), b2s(k.IsPaused(w.ctx)), recv, listOrDash(bl), dumpMap(bal), dumpMap(sup))
 }
 
 func listOrDash2(xs []string) string {
@@ -478,6 +547,12 @@ func (x *bexec) exec(line string) {
 		w.reset()
 		x.emit(line, "ok", "reset", false)
 		return
+	case "restart":
+		pb, rb := w.dumpProphecies(), w.dumpBridgeRest()
+		ans := w.restart()
+		x.emit(line, ans, "restart."+ans, true)
+		x.emit(fmt.Sprintf("chk carry tag=genesis.export-import.bridge-state-carried pb=%s pa=%s restb=%s resta=%s", pb, w.dumpProphecies(), rb, w.dumpBridgeRest()),
+			"true", "chk.carry", pb != "-")
 	case "val":
 		w.setVal(atoi(t[1]), int64(atoi(t[2])), t[3] == "1")
 		x.emit(line, "ok", "val", false)
